@@ -1,6 +1,7 @@
 (* C08 - entity pose follows the position packets addressed to it.  Statements only (proofs: PoseProofs.v).
    These hold for the code AFTER the repair recorded in known_findings.json (fixed: C08-a). *)
-From RU Require Import Base Types Defs BitReader World WireSpec LwwProofs PoseProofs Layout LayoutProofs.
+From RU Require Import Base Types Defs BitReader World WireSpec LwwProofs PoseProofs Layout LayoutProofs CreateProofs PoseHistory.
+From Coq Require Import Lia.
 Open Scope N_scope.
 
 Theorem C08_position_sets_pose : forall St w id e veh pos poserr yaw pitch roll flag,
@@ -51,3 +52,48 @@ Print Assumptions C08_own_player_unknown.
 Theorem C08_step_is_table_driven : forall St w c pl, step_class St w c pl = step_layout St w c pl.
 Proof. exact step_class_is_layout. Qed.
 Print Assumptions C08_step_is_table_driven.
+
+(* ---- whole histories ----
+   After ANY sequence of position and own-player position packets - any number, any ids (known or not), linked or not - the pose of every entity
+   is what the last-writer-wins specification says: the values of the last position packet addressed to it (an own-player packet naming no second
+   entity counts as one), the pose the named second entity HAD when an own-player packet linked them, the defaults before the first one; packets
+   naming an entity that does not exist change nothing; and nothing else changes: types, the three property tables of every entity, the recording
+   player, the map and the callback trace. *)
+Theorem C08_pose_history : forall St ps w s,
+  ids_ok w -> full w -> Forall wf_ppkt ps -> psame (pabs w) s ->
+  let w' := play_packets St w (map enc_ppkt ps) in
+  ids_ok w' /\ full w' /\ psame (pabs w') (fold_left spec_pstep ps s) /\ (forall i, rest_of w' i = rest_of w i) /\
+  w_player w' = w_player w /\ w_map w' = w_map w /\ w_trace w' = w_trace w.
+Proof. exact pose_history. Qed.
+Print Assumptions C08_pose_history.
+
+(* non-vacuity: two ships (7, 8) at their default pose; position(7), own-player(8 linked to 7), position(7) again, own-player(8, no link),
+   position(9: unknown), own-player(8 linked to the unknown 9): ship 8 first copies ship 7's FIRST pose, is not dragged along by 7's second
+   packet, then takes its own packet; the packets naming 9 change nothing *)
+Local Open Scope string_scope.
+Definition ex8_vol : list (string * option bytes) := [("position", None); ("yaw", None); ("pitch", None); ("roll", None)].
+Definition ex8_ent (i : Z) : entity := {| en_id := i; en_type := "Ship"; en_client := [("hp", VInt 5)]; en_base := []; en_cell := []; en_vol := ex8_vol |}.
+Definition ex8_w : world := {| w_entities := [(7%Z, ex8_ent 7); (8%Z, ex8_ent 8)]; w_player := Some 8%Z; w_map := None; w_trace := [] |}.
+Definition ex8_St : setup := {| s_game := Wows; s_table := []; s_names := ["Ship"]; s_models := []; s_msubs := []; s_mcounts := []; s_psubs := []; s_nsubs := [] |}.
+Definition b4 (x : byte) : bytes := [x; x; x; x].
+Definition b12 (x : byte) : bytes := (b4 x ++ b4 x ++ b4 x)%list.
+Definition ex8_ps : list ppkt :=
+  [PPos 7 (b4 x00) (b12 x01) (b12 x00) (b4 x02) (b4 x03) (b4 x04) x00;
+   POwn 8 7 (b12 xee) (b4 xee) (b4 xee) (b4 xee);
+   PPos 7 (b4 x00) (b12 x11) (b12 x00) (b4 x12) (b4 x13) (b4 x14) x01;
+   PPos 9 (b4 x00) (b12 x99) (b12 x00) (b4 x99) (b4 x99) (b4 x99) x00;
+   POwn 8 9 (b12 xdd) (b4 xdd) (b4 xdd) (b4 xdd)].
+Example C08_example_history :
+  ids_ok ex8_w /\ full ex8_w /\ Forall wf_ppkt ex8_ps /\
+  pabs (play_packets ex8_St ex8_w (map enc_ppkt ex8_ps)) 7 = Some (Some (b12 x11), Some (b4 x12), Some (b4 x13), Some (b4 x14)) /\
+  pabs (play_packets ex8_St ex8_w (map enc_ppkt ex8_ps)) 8 = Some (Some (b12 x01), Some (b4 x02), Some (b4 x03), Some (b4 x04)) /\
+  pabs (play_packets ex8_St ex8_w (map enc_ppkt ex8_ps)) 9 = None /\
+  fold_left spec_pstep ex8_ps (pabs ex8_w) 8%Z = Some (Some (b12 x01), Some (b4 x02), Some (b4 x03), Some (b4 x04)).
+Proof.
+  split; [|split; [|split]].
+  - intros i en H. cbn in H. destruct (Z.eqb i 7) eqn:E7; [apply Z.eqb_eq in E7; inversion H; subst; reflexivity|].
+    destruct (Z.eqb i 8) eqn:E8; [apply Z.eqb_eq in E8; inversion H; subst; reflexivity|discriminate].
+  - intros i en H. cbn in H. destruct (Z.eqb i 7); [inversion H; subst; discriminate|]. destruct (Z.eqb i 8); [inversion H; subst; discriminate|discriminate].
+  - repeat constructor; unfold in_i32; try lia.
+  - vm_compute. repeat split; reflexivity.
+Qed.
